@@ -3,6 +3,7 @@ from __future__ import annotations
 
 import contextlib
 import importlib
+import numpy as np
 import io
 import json
 import multiprocessing as mp
@@ -91,7 +92,8 @@ def _run_conc(obl, case, values, seed, tier, max_tries=60):
             continue
         except Exception as e:
             return {"status": "raised", "exc": f"{type(e).__name__}: {e}", "tb": traceback.format_exc(limit=8),
-                    "inputs": _jsonable(ctx.inputs), "failed": ["<no exception>"]}
+                    "inputs": _jsonable(ctx.inputs), "failed": ["<no exception>"],
+                    "witnesses": {k: bool(v) for k, v in ctx.witnesses.items() if isinstance(v, (bool, np.bool_))}}
         failed = [lab for lab, c in ctx.posts if not c]
         wit = {k: bool(v) for k, v in ctx.witnesses.items()}
         return {"status": "fail" if failed else "pass", "failed": failed, "inputs": _jsonable(ctx.inputs),
